@@ -113,11 +113,26 @@ def part_macro(res, rng, types, tier):
         res.case(("macro-group", tuple(picks)))
         res.count("macro_groups")
         case = {"group": [list(x) for x in picks]}
+        initial = rng.choice([None, 0, 0, 12345, 32768])
         try:
-            mc = MultiCtl.macro(p, *pairs, initial=rng.choice([None, 0, 12345, 32768]))
+            mc = MultiCtl.macro(p, *pairs, initial=initial)
         except Exception as e:
             res.violation(f"C20:macro-group-raises:{type(e).__name__}", f"macro for group {picks} raised {e!r}", case)
             continue
+        if initial is not None:
+            # an initial input is an input: the targets hold what assigning that value to the bundle delivers
+            try:
+                at_creation = [_val(getattr(m, cn)) for m, cn in pairs]
+                mc.value = (initial + 1) % 32769
+                mc.value = initial
+                by_assignment = [_val(getattr(m, cn)) for m, cn in pairs]
+                res.count("macro_initial_checks")
+                if at_creation != by_assignment:
+                    res.violation("C20:macro-initial-not-delivered", f"macro(..., initial={initial}) left the targets at {at_creation}; assigning value={initial} delivers {by_assignment} (group {picks})", dict(case, initial=initial))
+                    continue
+            except Exception as e:
+                res.violation(f"C20:macro-group-raises:{type(e).__name__}", f"driving the fresh bundle of group {picks} raised {e!r}", case)
+                continue
         if mc.out_links != [m.index for m, _ in pairs]:
             res.violation("C20:macro-group-order", f"group linked as {mc.out_links}, expected {[m.index for m, _ in pairs]}", case)
             continue
@@ -225,7 +240,13 @@ def part_drive(res, rng, n_tuples):
             kw["curve"] = curve
         mc = p.new_module(MultiCtl, **kw)
         mc >> mods
-        if curve is None and rng.random() < 0.5:
+        if curve is None and rng.random() < 0.25:
+            # the curve installed through the chunk's own function-based setter, with a function that overshoots the documented
+            # maximum (the setter clamps); still a monotone curve
+            k_ = rng.choice([130, 200, 1000])
+            mc.curve.set_via_fn(lambda x, k_=k_: x * k_)
+            res.count("curves_installed_via_set_via_fn")
+        elif curve is None and rng.random() < 0.5:
             # an unrelated MultiCtl (own project) has its curve table redrawn in place, non-monotonically;
             # the bundle under test was created with the default curve and must keep behaving like it
             other = api.Project().new_module(MultiCtl)
